@@ -75,6 +75,23 @@ Proof. vm_compute. auto. Qed.
 Definition ent_tbl (caller_locks : lockset) := mkTable []
   [mkFunc "p.T.helper" false false false [("p.T.mu", Ex)]; mkFunc "p.T.Pub" true false false []]
   [mkCall "p.T.helper" "p.T.Pub" caller_locks true false "frozen"] [] [].
+(* a helper that releases a lock its caller took (audit M11): the extractor cannot follow it, so the table is rejected.
+   The same table with the Unlock inside the function that locked is accepted. *)
+Definition unl_tbl (helper_unlocks : bool) := mkTable
+  [mkField "p.T" "mu" TSync; mkField "p.T" "x" TPlain]
+  [mkFunc "p.T.Pub" true false false []; mkFunc "p.T.helper" false false false [("p.T.mu", Ex)]]
+  [mkCall "p.T.helper" "p.T.Pub" [("p.T.mu", Ex)] true false "frozen"]
+  [mkSite "p.T" "mu" "p.T.Pub" Use [] true PreNone 1 [] "Lock" "frozen";
+   (if helper_unlocks
+    then mkSite "p.T" "mu" "p.T.helper" Use [] true PreNone 1 [] "Unlock" "frozen"
+    else mkSite "p.T" "mu" "p.T.Pub" Use [("p.T.mu", Ex)] true PreNone 2 [] "Unlock" "frozen");
+   (* the access the caller makes AFTER the helper returned: recorded as still under the lock *)
+   mkSite "p.T" "x" "p.T.Pub" Wr [("p.T.mu", Ex)] true PreNone 1 [] "" "frozen"] [].
+Lemma ex_unlock_in_helper_rejected :
+  table_ok [(("p.T", "mu"), SyncTyped); (("p.T", "x"), GuardedBy "p.T.mu")] [] (unl_tbl false) = true /\
+  table_ok [(("p.T", "mu"), SyncTyped); (("p.T", "x"), GuardedBy "p.T.mu")] [] (unl_tbl true) = false.
+Proof. vm_compute. auto. Qed.
+
 Lemma ex_entry_certificate :
   table_ok [] [] (ent_tbl [("p.T.mu", Ex)]) = true /\ table_ok [] [] (ent_tbl [("p.T.mu", Sh)]) = false
   /\ table_ok [] [] (ent_tbl []) = false.
